@@ -49,7 +49,9 @@ PROP = {
             "succeeds once the duplicates are deleted. And (60 / 600 cases) tables with named / unnamed unique indexes and declared keys "
             "dropped by plain DROP TABLE or DROP … CASCADE (autocommit, committed session, after a rolled-back DROP), VACUUM / "
             "reopen, the table name and the index names used again (same table or another one), ending in the catalog audit (live "
-            "index relations = keys of the live tables). At most one finding feature per case (tags `kf:…`). "
+            "index relations = keys of the live tables). And (30 / 300 cases) a transaction refused at COMMIT — same row, same unique "
+            "key, or same table name — that also inserted elsewhere and created a table, followed by committed work, reopen and "
+            "reads (the refused transaction stays rolled back across the close). At most one finding feature per case (tags `kf:…`). "
             "Non-trivial (`nt`) = a DDL statement inside a transaction that rolls back, or DML on a table altered earlier in the case.",
     "assumptions": [
         "in the model ADD / DROP COLUMN re-write the rows the altering transaction sees; rows inserted by a transaction that is "
